@@ -237,6 +237,7 @@ pub trait Api {
 
 // ---- coins, message info, env ----
 pub struct Coin { pub denom: String, pub amount: Uint128 }
+impl Clone for Coin { #[verifier::external_body] fn clone(&self) -> (r: Coin) ensures r == *self { unimplemented!() } }
 pub struct MessageInfo { pub sender: Addr, pub funds: Vec<Coin> }
 impl Clone for MessageInfo { #[verifier::external_body] fn clone(&self) -> (r: MessageInfo) ensures r == *self { unimplemented!() } }
 pub struct ContractInfo { pub address: Addr }
